@@ -304,7 +304,7 @@ def _plan(tier):
 
 def run(rep: Report):
     tier = rep.tier
-    opts = {"prove_timeout_ms": 10000, "fork_timeout_ms": 2000, "seed": rep.seed, "scenario_wall_s": 240 if tier == "quick" else 1500}
+    opts = {"prove_timeout_ms": 10000, "fork_timeout_ms": 2000, "seed": rep.seed, "scenario_wall_s": 900 if tier == "quick" else 1500}
     run_plan(rep, _plan(tier), SCENARIOS, opts)
     rep.bounds = {"atoms": "3 (quick) / 4 (thorough)", "labels": "every labeling in [-1,2]^n", "composite size": "2-3 (distinct objects with + and one object repeated with *)", "user check": "every verdict sequence (max_attempts 1-2)"}
     rep.assumptions = ["the operation is any object with calculate(): its result is a fresh symbolic (1,3) or (k,3) array", "no constraints on the atoms (constraints are C12's subject)"]
